@@ -965,6 +965,7 @@ class Blob(ShaFile):
     @chunked.setter
     def chunked(self, chunks: list[bytes]) -> None:
         self._chunked_text = chunks
+        self._sha = None
 
     def _serialize(self) -> list[bytes]:
         assert self._chunked_text is not None
